@@ -48,4 +48,97 @@ theorem user_bitrate_no_overflow (s : DSt) (hfs : s.fs ∈ rates) (hch : s.chann
     ((try simp only [Int.reduceDiv, Int.reduceMul] at h); subst h; (try simp only [Int.reduceDiv, Int.reduceMul, Int.reduceEq, ite_true, ite_false, reduceIte])) <;>
     (refine ⟨⟨?_, ?_, ?_, ?_, ?_, ?_, ?_, ?_, ?_⟩, ?_, ?_⟩ <;> (try split) <;> (try split) <;> omega)
 
+/-! ### The byte / bit budget at the head of opus_encode_native (:1154-1334) -/
+
+/-- Every value :1249-1268 and :1334 compute from the bit-rate, listed (`out` = out_data_bytes). -/
+def budgetIntermediates (s : DSt) (f out : Int) : List Int :=
+  let maxDataBytes := min 1276 out
+  let bitrate := userBitrateToBitrate s f maxDataBytes
+  let fr12 := 12 * s.fs / f
+  let cbr := min ((12 * bitrate / 8 + fr12 / 2) / fr12) maxDataBytes
+  let fr := s.fs / f
+  [maxDataBytes, bitrate, 12 * s.fs, fr12, 12 * bitrate, 12 * bitrate / 8, 12 * bitrate / 8 + fr12 / 2, cbr, cbr * fr12,
+   cbr * fr12 * 8, cbr * fr12 * 8 / 12, max 1 cbr, fr, 3 * fr, 3 * fr * 8, maxDataBytes * fr, max 1 cbr * fr,
+   fr * maxDataBytes, fr * maxDataBytes * 8, fr * max 1 cbr, fr * max 1 cbr * 8]
+
+/-- For a legal rate, 1–2 channels, a stored bit-rate in its `CtlInv` range, one of the nine Opus
+    frame sizes and any positive `int` buffer size, no intermediate of the budget computation
+    overflows (CBR and VBR alike). -/
+theorem budget_no_overflow (s : DSt) (hfs : s.fs ∈ rates) (hch : s.channels = 1 ∨ s.channels = 2)
+    (hbr : s.userBitrate = -1000 ∨ s.userBitrate = -1 ∨ (500 ≤ s.userBitrate ∧ s.userBitrate ≤ 300000 * s.channels))
+    (f out : Int) (hf : f ∈ apiSizes s.fs) (hout : 0 < out ∧ out ≤ 2147483647) :
+    ∀ x ∈ budgetIntermediates s f out, I32 x := by
+  simp only [rates, List.mem_cons, List.mem_nil_iff, or_false] at hfs
+  simp only [apiSizes, List.mem_cons, List.mem_nil_iff, or_false] at hf
+  unfold budgetIntermediates userBitrateToBitrate I32
+  consts
+  simp only [List.mem_cons, List.mem_nil_iff, or_false, forall_eq_or_imp, forall_eq]
+  generalize s.fs = fs at *
+  generalize s.channels = ch at *
+  generalize s.userBitrate = ub at *
+  rcases hfs with rfl | rfl | rfl | rfl | rfl <;>
+    rcases hf with h | h | h | h | h | h | h | h | h <;>
+    ((try simp only [Int.reduceDiv, Int.reduceMul] at h); subst h; (try simp only [Int.reduceDiv, Int.reduceMul, Int.reduceEq, ite_true, ite_false, reduceIte])) <;>
+    (refine ⟨?_, ?_, ?_, ?_, ?_, ?_, ?_, ?_, ?_, ?_, ?_, ?_, ?_, ?_, ?_, ?_, ?_, ?_, ?_, ?_, ?_⟩ <;> (try split) <;> (try split) <;> omega)
+
+/-! ### frame_size_select (:768-791) -/
+
+theorem fixedSize_bounds {vd fs : Int} (hfs : fs ∈ rates) (hvd : 5001 ≤ vd ∧ vd ≤ 5009) :
+    0 < fixedSize vd fs ∧ fixedSize vd fs ≤ 5760 := by
+  have ht := fixedTable_true
+  simp only [fixedTable, List.all_eq_true, beq_iff_eq] at ht
+  have hmem : vd ∈ ([5001, 5002, 5003, 5004, 5005, 5006, 5007, 5008, 5009] : List Int) := by
+    simp only [List.mem_cons, List.mem_nil_iff, or_false]; omega
+  have h := ht fs hfs vd hmem
+  have hd : 1 ≤ durNum vd ∧ durNum vd ≤ 48 := by
+    simp only [List.mem_cons, List.mem_nil_iff, or_false] at hmem
+    rcases hmem with rfl | rfl | rfl | rfl | rfl | rfl | rfl | rfl | rfl <;> decide
+  simp only [rates, List.mem_cons, List.mem_nil_iff, or_false] at hfs
+  generalize durNum vd = d at *
+  generalize fixedSize vd fs = x at *
+  rcases hfs with rfl | rfl | rfl | rfl | rfl <;> omega
+
+/-- The candidate frame size `frame_size_select` forms before it tests it. -/
+def fssNew (frameSize vd fs : Int) : Int := if vd = 5000 then frameSize else fixedSize vd fs
+
+/-- For a legal rate, a frame-duration setting in its `CtlInv` range and
+    `Fs/400 ≤ frame_size ≤ INT_MAX/400 = 5368709`, every product of `frame_size_select` fits `int`.
+    The upper bound is needed by the C code as it stands (it multiplies before bounding
+    `frame_size` from above): `400 * 5368710` does not fit. -/
+theorem frame_size_select_no_overflow (frameSize vd fs : Int) (hfs : fs ∈ rates) (hvd : 5000 ≤ vd ∧ vd ≤ 5009)
+    (hf : fs / 400 ≤ frameSize ∧ frameSize ≤ 5368709) :
+    let n := fssNew frameSize vd fs
+    I32 n ∧ I32 ((vd - 5001 - 2) * fs) ∧ I32 (6 * fs) ∧
+    (n ≤ frameSize → I32 (400 * n) ∧ I32 (200 * n) ∧ I32 (100 * n) ∧ I32 (50 * n) ∧ I32 (25 * n)) ∧
+    ¬ I32 (400 * 5368710) := by
+  intro n
+  have hn : 0 < n ∧ n ≤ 5368709 := by
+    show 0 < fssNew frameSize vd fs ∧ fssNew frameSize vd fs ≤ 5368709
+    unfold fssNew
+    split
+    · simp only [rates, List.mem_cons, List.mem_nil_iff, or_false] at hfs
+      rcases hfs with rfl | rfl | rfl | rfl | rfl <;> omega
+    · have := fixedSize_bounds (vd := vd) hfs (by omega); omega
+  simp only [rates, List.mem_cons, List.mem_nil_iff, or_false] at hfs
+  unfold I32
+  refine ⟨by omega, ?_, ?_, fun _ => by omega, by omega⟩ <;>
+    (rcases hfs with rfl | rfl | rfl | rfl | rfl <;> omega)
+
+/-! ### Other getters -/
+
+/-- OPUS_GET_LOOKAHEAD (`Fs/400 + delay_compensation`, delay_compensation = Fs/250) and the
+    projection demixing-matrix size (`channels·(streams+coupled)·2`, at most 255 channels). -/
+theorem getter_arith_no_overflow (fs nbChannels nbStreams nbCoupled : Int) (hfs : fs ∈ rates)
+    (hn : 1 ≤ nbChannels ∧ nbChannels ≤ 255) (hs : 0 ≤ nbStreams ∧ 0 ≤ nbCoupled ∧ nbStreams + nbCoupled ≤ 255) :
+    I32 (fs / 400 + fs / 250) ∧ I32 (nbChannels * (nbStreams + nbCoupled)) ∧ I32 (nbChannels * (nbStreams + nbCoupled) * 2) := by
+  simp only [rates, List.mem_cons, List.mem_nil_iff, or_false] at hfs
+  have hp : 0 ≤ nbChannels * (nbStreams + nbCoupled) ∧ nbChannels * (nbStreams + nbCoupled) ≤ 255 * 255 := by
+    constructor
+    · exact Int.mul_nonneg (by omega) (by omega)
+    · exact Int.mul_le_mul hn.2 hs.2.2 (by omega) (by omega)
+  unfold I32
+  generalize nbChannels * (nbStreams + nbCoupled) = p at *
+  refine ⟨?_, by omega, by omega⟩
+  rcases hfs with rfl | rfl | rfl | rfl | rfl <;> omega
+
 end Opus.Ctl
